@@ -29,6 +29,14 @@ reg("C02",
     "Trusted: vf/ref/tokenizer.py (own transcription of the June-2020 standard, html.entities.html5 as entity table). DOCTYPE name missing == '' (cannot be told apart).",
     "DESIGN.md §3 C02")
 
+reg("C14",
+    "exhaustive enumeration of the finite reference space against an independent oracle (html.entities.html5 + numeric rules from the standard) + encode/decode round trip over all code points",
+    "Bounded-exhaustive: all 2231 names x 17 followers x 5 contexts through the tokenizer (and parseFragment), all special numeric values and overflow samples x 6 spellings x ';'/none x followers; "
+    "the plain numeric space 0..0x110000 (quick: seed-rotated 1/8 slice; thorough: all) batched ~400 per document; reverse direction: every non-surrogate code point entity-encoded under ascii (+ samples of 5 other codecs) and parsed back. "
+    "Thorough tier is exhaustive over the stated domain.",
+    "Trusted: html.entities.html5 as the standard's table; numeric rules written from the standard. Known finding: C1 controls cannot be expressed by any reference.",
+    "DESIGN.md §3 C14")
+
 NOT_APPLICABLE = {}
 
 
